@@ -54,7 +54,7 @@ CHECKS.update({
 })
 
 CHECKS.update({
-    'C15': ('model_checking', 'PARTIAL: map-order mode of the symbolic executor - the iteration order of every Go map that emerge\'s own code ranges over, the (deliberately shuffled) traversal order of the library\'s hash tables and sets where emerge\'s own code traverses them, the input order of the library\'s shuffled quick sort where emerge\'s own code sorts, and the completion order of goroutines at WaitGroup.Wait are decisions of the path (every permutation up to 3 [thorough 4] entries, identity and reversal beyond; at most 1 perturbed traversal per path); spec.Parse + Spec.DFA on eight fixed openings followed by every token sequence up to a length bound (kinds symbolic), and golang.Generate on a small corpus with the OS succeeding and template execution replaced by a recorder of the template data, are each run once in sorted order and once under every order: diagnostics and their order, the specification, the final-state lists, the template data and the files opened must be identical; counterexamples are confirmed natively by repeating the run under the Go runtime\'s own map randomisation. NOT decided: traversals and sorts the library makes on its own behalf, hash seeds of fresh processes, preemptive scheduling', '§13 C15'),
+    'C15': ('model_checking', 'PARTIAL: map-order mode of the symbolic executor - the iteration order of every Go map that emerge\'s own code ranges over, the (deliberately shuffled) traversal order of the library\'s hash tables and sets where emerge\'s own code traverses them, the input order of the library\'s shuffled quick sort where emerge\'s own code sorts, and the completion order of goroutines at WaitGroup.Wait are decisions of the path (every permutation up to 3 entries, identity and reversal beyond; at most 1 perturbed traversal per path); spec.Parse + Spec.DFA on eight fixed openings followed by every token sequence up to a length bound (kinds symbolic), and golang.Generate on a small corpus with the OS succeeding and template execution replaced by a recorder of the template data, are each run once in sorted order and once under every order: diagnostics and their order, the specification, the final-state lists, the template data and the files opened must be identical; counterexamples are confirmed natively by repeating the run under the Go runtime\'s own map randomisation. NOT decided: traversals and sorts the library makes on its own behalf, hash seeds of fresh processes, preemptive scheduling', '§13 C15'),
 })
 
 NA = {
